@@ -76,7 +76,10 @@ def per_day(rule):
 
 
 def run_one(srv_asan, plain_exe, part, text, stratum, npop, style):
-    opts = "n=%d style=%s budget=%d" % (npop, style, BUDGET_ASAN)
+    # the dense-EXRULE stratum is a listed finding (minutes to hours of CPU): it is told apart from an answer that merely
+    # takes long by a smaller budget, there is no point in waiting 70 s for each of them
+    b_asan, b_plain = (BUDGET_ASAN, BUDGET_PLAIN) if not stratum.endswith("exrule-dense") else (BUDGET_ASAN // 4, BUDGET_PLAIN // 6)
+    opts = "n=%d style=%s budget=%d" % (npop, style, b_asan)
     sig = features(text) + "/" + stratum
     part.evaluations += 1
     try:
@@ -86,14 +89,14 @@ def run_one(srv_asan, plain_exe, part, text, stratum, npop, style):
             # slow because instrumented?  second opinion on the plain build with a larger budget
             p = CaseServer(plain_exe, wall_timeout=200)
             try:
-                p.case("n=%d style=%s budget=%d" % (npop, style, BUDGET_PLAIN), text)
+                p.case("n=%d style=%s budget=%d" % (npop, style, b_plain), text)
                 part.inconclusive.append({"why": "over budget under ASan, within budget on the plain build", "sig": sig})
                 part.count("slow_but_terminating")
                 return
             except HarnessCrash as e2:
                 if e2.kind == "timeout":
                     part.violation(sig + "/hang", {"input": text, "n": npop, "style": style,
-                                                   "summary": "no answer within %d ms CPU (ASan) and %d ms CPU (plain build)" % (BUDGET_ASAN, BUDGET_PLAIN)})
+                                                   "summary": "no answer within %d ms CPU (ASan) and %d ms CPU (plain build)" % (b_asan, b_plain)})
                 else:
                     part.violation(sig + "/crash-" + e2.kind, {"input": text, "n": npop, "style": style, "summary": e2.detail[:1500]})
                 return
